@@ -21,10 +21,23 @@ func NewMsgServerImpl(keeper Keeper) types.MsgServer {
 
 var _ types.MsgServer = msgServer{}
 
+// canonicalAddress validates an address of a message and returns its canonical spelling. Bech32
+// also accepts an address written in upper case; bids, allow-list entries and auctions refer to
+// accounts by their address string, so only one spelling may reach the state.
+func (k msgServer) canonicalAddress(address string) (string, error) {
+	bz, err := k.addressCodec.StringToBytes(address)
+	if err != nil {
+		return "", err
+	}
+	return k.addressCodec.BytesToString(bz)
+}
+
 func (k msgServer) AddAllowedBidder(ctx context.Context, msg *types.MsgAddAllowedBidder) (*types.MsgAddAllowedBidderResponse, error) {
-	if _, err := k.addressCodec.StringToBytes(msg.AllowedBidder.Bidder); err != nil {
+	address, err := k.canonicalAddress(msg.AllowedBidder.Bidder)
+	if err != nil {
 		return nil, sdkerrors.Wrap(err, "invalid authority address")
 	}
+	msg.AllowedBidder.Bidder = address
 
 	if !EnableAddAllowedBidder {
 		return nil, sdkerrors.Wrap(errors.ErrInvalidRequest, "EnableAddAllowedBidder is disabled")
@@ -38,9 +51,11 @@ func (k msgServer) AddAllowedBidder(ctx context.Context, msg *types.MsgAddAllowe
 }
 
 func (k msgServer) CancelAuction(ctx context.Context, msg *types.MsgCancelAuction) (*types.MsgCancelAuctionResponse, error) {
-	if _, err := k.addressCodec.StringToBytes(msg.Auctioneer); err != nil {
+	address, err := k.canonicalAddress(msg.Auctioneer)
+	if err != nil {
 		return nil, sdkerrors.Wrap(err, "invalid authority address")
 	}
+	msg.Auctioneer = address
 
 	if err := k.Keeper.CancelAuction(ctx, msg); err != nil {
 		return nil, err
@@ -50,9 +65,11 @@ func (k msgServer) CancelAuction(ctx context.Context, msg *types.MsgCancelAuctio
 }
 
 func (k msgServer) CreateBatchAuction(ctx context.Context, msg *types.MsgCreateBatchAuction) (*types.MsgCreateBatchAuctionResponse, error) {
-	if _, err := k.addressCodec.StringToBytes(msg.Auctioneer); err != nil {
+	address, err := k.canonicalAddress(msg.Auctioneer)
+	if err != nil {
 		return nil, sdkerrors.Wrap(err, "invalid authority address")
 	}
+	msg.Auctioneer = address
 
 	if _, err := k.Keeper.CreateBatchAuction(ctx, msg); err != nil {
 		return nil, err
@@ -62,9 +79,11 @@ func (k msgServer) CreateBatchAuction(ctx context.Context, msg *types.MsgCreateB
 }
 
 func (k msgServer) CreateFixedPriceAuction(ctx context.Context, msg *types.MsgCreateFixedPriceAuction) (*types.MsgCreateFixedPriceAuctionResponse, error) {
-	if _, err := k.addressCodec.StringToBytes(msg.Auctioneer); err != nil {
+	address, err := k.canonicalAddress(msg.Auctioneer)
+	if err != nil {
 		return nil, sdkerrors.Wrap(err, "invalid authority address")
 	}
+	msg.Auctioneer = address
 
 	if _, err := k.Keeper.CreateFixedPriceAuction(ctx, msg); err != nil {
 		return nil, err
@@ -74,9 +93,11 @@ func (k msgServer) CreateFixedPriceAuction(ctx context.Context, msg *types.MsgCr
 }
 
 func (k msgServer) ModifyBid(ctx context.Context, msg *types.MsgModifyBid) (*types.MsgModifyBidResponse, error) {
-	if _, err := k.addressCodec.StringToBytes(msg.Bidder); err != nil {
+	address, err := k.canonicalAddress(msg.Bidder)
+	if err != nil {
 		return nil, sdkerrors.Wrap(err, "invalid authority address")
 	}
+	msg.Bidder = address
 
 	if err := k.Keeper.ModifyBid(ctx, msg); err != nil {
 		return nil, err
@@ -86,9 +107,11 @@ func (k msgServer) ModifyBid(ctx context.Context, msg *types.MsgModifyBid) (*typ
 }
 
 func (k msgServer) PlaceBid(ctx context.Context, msg *types.MsgPlaceBid) (*types.MsgPlaceBidResponse, error) {
-	if _, err := k.addressCodec.StringToBytes(msg.Bidder); err != nil {
+	address, err := k.canonicalAddress(msg.Bidder)
+	if err != nil {
 		return nil, sdkerrors.Wrap(err, "invalid authority address")
 	}
+	msg.Bidder = address
 
 	if _, err := k.Keeper.PlaceBid(ctx, msg); err != nil {
 		return nil, err
